@@ -17,10 +17,37 @@ import (
 	"strings"
 	"sync"
 	"testing"
+	"time"
 
 	rt "github.com/smarthome-go/homescript/v3/homescript/runtime"
 	"verif.local/simrt"
 )
+
+// freeRunTimeout: real-time bound of one free-mode run (they take milliseconds).
+const freeRunTimeout = 40 * time.Second
+
+// blockedSites names the product functions in which goroutines are blocked on a lock or channel.
+func blockedSites(dump string) string {
+	set := map[string]bool{}
+	for _, blk := range strings.Split(dump, "\n\n") {
+		head, _, _ := strings.Cut(blk, "\n")
+		if !strings.Contains(head, "sync.") && !strings.Contains(head, "semacquire") && !strings.Contains(head, "chan ") {
+			continue
+		}
+		for _, ln := range strings.Split(blk, "\n") {
+			if mm := raceFrame.FindStringSubmatch("  " + ln); mm != nil {
+				set[shortFn(mm[1])] = true
+				break
+			}
+		}
+	}
+	var out []string
+	for k := range set {
+		out = append(out, k)
+	}
+	sort.Strings(out)
+	return strings.Join(out, ",")
+}
 
 // raceBin is the -race build of this test binary (set from the job).
 var raceBin string
@@ -166,7 +193,17 @@ func execFree(specs []RunSpec, dir string, tag string) ([]*Verdict, error) {
 	cmd.Env = append(os.Environ(), "SIMCHECK_JOB="+jobFile, "GORACE=halt_on_error=0", "GOMAXPROCS=16")
 	cmd.Stdout = lf
 	cmd.Stderr = lf
-	runErr := cmd.Run()
+	runErr := cmd.Start()
+	if runErr == nil {
+		waitCh := make(chan error, 1)
+		go func() { waitCh <- cmd.Wait() }()
+		select {
+		case runErr = <-waitCh:
+		case <-time.After(time.Duration(len(specs))*2*time.Second + 3*freeRunTimeout):
+			cmd.Process.Kill()
+			runErr = fmt.Errorf("free-mode batch killed after its wall-clock budget")
+		}
+	}
 	lf.Close()
 	logRaw, _ := os.ReadFile(logFile)
 	races := parseRaces(string(logRaw))
@@ -215,13 +252,40 @@ func workerFree(t *testing.T, job Job, sum *Summary) {
 		return
 	}
 	var results []freeResult
+	flush := func() {
+		b, _ := json.Marshal(results)
+		sum.Hashes = map[string]string{"free_results": string(b)}
+	}
 	for i, spec := range specs {
 		fmt.Fprintf(os.Stderr, "SIMCHECK-FREE-BEGIN %d\n", i)
-		v := runC17FreeHere(t, spec)
+		done := make(chan *Verdict, 1)
+		go func() { done <- runC17FreeHere(t, spec) }()
+		var v *Verdict
+		select {
+		case v = <-done:
+		case <-time.After(freeRunTimeout):
+			// Real goroutines on real locks: a run that does not finish is a deadlock (or a
+			// livelock) of the product under an ordinary schedule. The process is wedged, so
+			// this batch ends here; the remaining specs are reported as not run.
+			buf := make([]byte, 1<<20)
+			n := runtime.Stack(buf, true)
+			sites := blockedSites(string(buf[:n]))
+			v = &Verdict{}
+			v.fail("C17", "deadlock", "no-deadlock", "free:"+sites, fmt.Sprintf("free-mode run (real goroutines, real locks) did not finish within %v of real time; goroutines blocked in: %s", freeRunTimeout, sites))
+			results = append(results, freeResult{Idx: i, Class: v.Class, Msg: v.Msg, Sig: v.Sig})
+			for j := i + 1; j < len(specs); j++ {
+				results = append(results, freeResult{Idx: j})
+			}
+			sum.Runs++
+			flush()
+			sum.WallS = 0
+			out, _ := json.Marshal(sum)
+			os.WriteFile(job.Out, out, 0o644)
+			os.Exit(0)
+		}
 		fmt.Fprintf(os.Stderr, "SIMCHECK-FREE-END %d\n", i)
 		results = append(results, freeResult{Idx: i, Class: v.Class, Msg: v.Msg, Sig: v.Sig})
 		sum.Runs++
 	}
-	b, _ := json.Marshal(results)
-	sum.Hashes = map[string]string{"free_results": string(b)}
+	flush()
 }
